@@ -17,7 +17,6 @@ Check(e) ==
   /\ Eq(e, "Seg4Glyph", L!Seg4Glyph(t, 1, e.c), Mod16(e.c + (IF e.plant = 1 THEN e.d + 1 ELSE e.d)))
   /\ e.c < 65535 => Eq(e, "Map4", L!Map4(t, e.c), ByCases(e.c, e.d))
   /\ Eq(e, "WrapAdd16", L!Mod16(e.c + e.d), WrapAdd16(e.c, U16OfI16(e.d)))
-  /\ Eq(e, "And16I32", L!Mod16(e.c + e.d), And16I32(e.c + e.d))
   /\ Eq(e, "delta.written", L!Mod16(e.c + S!ToI16(e.g - (e.c % 65536))), e.g)
 MInit == i = 1
 MNext == i <= Len(Rec) /\ Check(Rec[i]) /\ i' = i + 1
